@@ -119,6 +119,10 @@ func (g *Gateway) subscriptionHandler(w http.ResponseWriter, r *http.Request) {
 		// Let event handlers deal with starting operations
 		case requests.SubStart:
 			request := subMsg.Payload
+			// a start message without payload is malformed
+			if request == nil {
+				return
+			}
 			request.Original = r
 
 			query, qerr := gqlparser.LoadQuery(g.schema, request.Query)
